@@ -44,6 +44,8 @@ enum Unit {
     /// w values live across out-of-line calls (register pressure around
     /// atan2 / mod / libm call-outs; w > 12 spills to the stack in the JIT)
     Fan { w: usize },
+    /// 300 simultaneously live intervals (stack frames of several KiB in the JIT)
+    Huge,
     Transform(bool),
 }
 
@@ -95,6 +97,7 @@ fn units(tier: Tier) -> Vec<Unit> {
     for w in 1..=(if tier == Tier::Quick { 16 } else { 24 }) {
         v.push(Unit::Fan { w });
     }
+    v.push(Unit::Huge);
     v
 }
 
@@ -566,12 +569,13 @@ impl Check for C03 {
             Unit::Binary(b, j) => format!("{} op {b:?}", if *j { "jit" } else { "vm" }),
             Unit::Dag { n, .. } => format!("dag n={n}"),
             Unit::Fan { w } => format!("fan w={w}"),
+            Unit::Huge => "huge".into(),
             Unit::Transform(j) => format!("{} transform", if *j { "jit" } else { "vm" }),
         }
     }
     fn meta(&self, tier: Tier) -> Meta {
         Meta {
-            rule: "case = (program, box); (a) every opcode x operand form {reg, reg/reg, same-reg, reg/imm and imm/reg with 12 immediates} x every interval (pair) over the finite endpoint alphabet E (+op-specific boundary endpoints: quadrant boundaries, +-1+-ulp, exp/ln limits), sample points per interval = endpoints, midpoint, neighbours of the endpoints and every alphabet value inside, all combinations for binary ops; (b) fan families of width w = 1..16 (thorough 24): w values live across atan2 / mod / sin / exp call-outs, consumed in three orders, all nodes exported, 225 boxes; every DAG up to the node bound over one representative op per interval-behaviour class {add,sub,mul,div,recip,sqrt,square,abs,sin,atan2,floor,mod,min,and,compare,not} with all nodes exported, boxes from a per-axis endpoint grid, points = corners/edge midpoints/centre, local obligation at every node on the intermediate intervals that actually arise (operand values clamped into the evaluator's operand intervals); (c) Shape API with 10 matrices (exact dyadic ones checked to 4 ulp; 30-degree rotation and four projective ones - bottom row (0,0,.25,2), (0,0,.25,1), (.125,-.0625,.25,1), perspective x rotation x scale - to 1e-5 relative); VM and JIT; tolerance 4 ulp; excluded: NaN interval, NaN value, atan2(0,0); non-trivial = the returned interval is not the NaN interval".into(),
+            rule: "case = (program, box); (a) every opcode x operand form {reg, reg/reg, same-reg, reg/imm and imm/reg with 12 immediates} x every interval (pair) over the finite endpoint alphabet E (+op-specific boundary endpoints: quadrant boundaries, +-1+-ulp, exp/ln limits), sample points per interval = endpoints, midpoint, neighbours of the endpoints and every alphabet value inside, all combinations for binary ops; (b) fan families of width w = 1..16 (thorough 24): w values live across atan2 / mod / sin / exp call-outs, consumed in three orders, all nodes exported, 225 boxes; one huge program with 300 simultaneously live intervals; every DAG up to the node bound over one representative op per interval-behaviour class {add,sub,mul,div,recip,sqrt,square,abs,sin,atan2,floor,mod,min,and,compare,not} with all nodes exported, boxes from a per-axis endpoint grid, points = corners/edge midpoints/centre, local obligation at every node on the intermediate intervals that actually arise (operand values clamped into the evaluator's operand intervals); (c) Shape API with 10 matrices (exact dyadic ones checked to 4 ulp; 30-degree rotation and four projective ones - bottom row (0,0,.25,2), (0,0,.25,1), (.125,-.0625,.25,1), perspective x rotation x scale - to 1e-5 relative); VM and JIT; tolerance 4 ulp; excluded: NaN interval, NaN value, atan2(0,0); non-trivial = the returned interval is not the NaN interval".into(),
             bounds: match tier {
                 Tier::Quick => "two-variable forms over 19 endpoints (190 intervals, 36100 pairs); DAG nodes <= 2".into(),
                 Tier::Thorough => "two-variable forms over the full endpoint alphabet; DAG nodes <= 3 (thinned box grid at n = 3)".into(),
@@ -596,6 +600,16 @@ impl Check for C03 {
             Unit::Binary(b, true) => binary_unit::<JitFunction>(cx, tier, b),
             Unit::Transform(false) => transform_unit::<VmFunction>(cx, tier),
             Unit::Transform(true) => transform_unit::<JitFunction>(cx, tier),
+            Unit::Huge => {
+                let p = crate::prog::huge_prog(300, false);
+                let boxes: Vec<Vec<(f32, f32)>> = vec![vec![(-1.0, -0.5)], vec![(0.25, 0.25)], vec![(-2.0, 3.0)], vec![(0.0, 1e-3)]];
+                if cx.case(0) {
+                    cx.add("cases", 1);
+                    cx.add("nontrivial", 1);
+                    dag_prog::<VmFunction>(cx, &p, &boxes);
+                    dag_prog::<JitFunction>(cx, &p, &boxes);
+                }
+            }
             Unit::Fan { w } => {
                 use crate::prog::{Order, family_fan};
                 let e = [-2.0f32, -0.5, 0.25, 1.0, 3.0];
